@@ -188,6 +188,16 @@ def compute_dyadic_downscaling(info, source_scale_index, downscaler,
 
     half_chunk = [osz // f
                   for osz, f in zip(old_chunk_size, downscaling_factors)]
+    # Each new chunk is assembled from one or two downscaled old chunks along
+    # every axis: refuse chunk size combinations where this does not hold
+    # (unless the whole axis fits in a single new chunk made of at most two
+    # downscaled old chunks), instead of writing wrong data.
+    for hc, nsz, nsize in zip(half_chunk, new_chunk_size, new_size):
+        if hc < 1 or not (nsz in (hc, 2 * hc)
+                          or (nsz >= nsize and nsize <= 2 * hc)):
+            raise ValueError("Unsupported combination of chunk sizes "
+                             f"between scales {old_key} ({old_chunk_size}) "
+                             f"and {new_key} ({new_chunk_size})")
     chunk_fetch_factor = [nsz // hc
                           for nsz, hc in zip(new_chunk_size, half_chunk)]
 
